@@ -1,3 +1,20 @@
 """vcheck configuration of work group C: PROPS = {"Cxx": {"families": [fam("name", quick_n, thorough_n)], "defects": ["Dn"]}}"""
 
-PROPS = {}
+PROPS = {
+    "C07": {
+        "families": [
+            fam("c07.prio", 3000, 20000),
+            # block pairs of the 2304-rule pool; thorough = all 48x48 blocks = all 5.3 M ordered pairs (seed-independent)
+            fam("c07.matrix", 40, 1000000, seeds=1),
+            # laws computed in Go; n >= 1000000 = exhaustive over the pool
+            fam("c07.laws", 1500, 1000000, seeds=1),
+        ],
+        "defects": ["D6"],
+        "rule": "c07.prio: ordered pairs over the 2304-rule feature pool + extras + generated rules (incl. a,a and rule vs rule+modifier); "
+                "c07.matrix: 48x48 blocks of the pool's IsHigherPriority matrix (thorough: the whole matrix); c07.laws: irreflexivity, "
+                "asymmetry, transitivity of > and of ties, add-modifier, selection maximality computed in Go; distinct by hash of the op input; "
+                "non-trivial when the answer is not F",
+        "explanation": "$redirect is read by IsHigherPriority but cannot be set from rule text on this tree; the theorems cover it, "
+                       "the correspondence cannot.",
+    },
+}
